@@ -57,6 +57,9 @@ pub struct OutageCase {
     /// the call at which the node disappears is still executed by it, its reply is cut in the middle
     #[serde(default)]
     pub cut: bool,
+    /// the node is not away but warming up after a restart: its answers are the JSON-RPC error -28 for that long
+    #[serde(default)]
+    pub warmup: bool,
 }
 
 #[derive(Debug)]
@@ -137,6 +140,7 @@ fn execute_with(c: &OutageCase, choices: &[usize], early_timeouts: usize) -> Res
             }
             e.second_outage = c.again.map(|n| (n, 1));
             e.rpc_cut_first = c.cut;
+            e.rpc_down_is_warmup = c.warmup;
         }
         if let Some(i) = c.src_index {
             let base = e.src_count;
@@ -417,10 +421,10 @@ fn judge(c: &OutageCase, r: &Result_, reference: &Result_) -> Vec<(String, Strin
     if r.final_state != reference.final_state || r.faulty_reply != reference.faulty_reply {
         let lost = reference.final_state.as_ref().map_or(false, |f| f.matches(";T").count() + f.starts_with('T') as usize > r.final_state.as_ref().map_or(0, |g| g.matches(";T").count() + g.starts_with('T') as usize));
         v.push((
-            format!("{}:{path}:{}", if lost { "response-dropped-after-recovery" } else { "state-differs-after-recovery" }, if c.cut { "reply-cut-in-the-middle" } else { what }),
+            format!("{}:{path}:{}", if lost { "response-dropped-after-recovery" } else { "state-differs-after-recovery" }, if c.cut { "reply-cut-in-the-middle" } else if c.warmup { "node-warming-up" } else { what }),
             format!(
                 "{} (rpc #{:?}{}, again {:?}, src #{:?}, k={}, mined {:?}): after recovery {:?} reply {:?}; fault-free {:?} reply {:?}",
-                c.name, c.rpc_index, if c.cut { " executed, reply cut" } else { "" }, c.again, c.src_index, c.k, c.mined, r.final_state, r.faulty_reply, reference.final_state, reference.faulty_reply
+                c.name, c.rpc_index, if c.cut { " executed, reply cut" } else if c.warmup { " node warming up" } else { "" }, c.again, c.src_index, c.k, c.mined, r.final_state, r.faulty_reply, reference.final_state, reference.faulty_reply
             ),
         ));
     }
@@ -569,7 +573,7 @@ pub fn c12(tier: Tier) -> i32 {
     let mut cases: Vec<OutageCase> = Vec::new();
     for (name, cfg, prefix, faulty) in prefixes() {
         // how many RPCs / block-source calls does the faulty step make when nothing fails?
-        let probe = OutageCase { name: name.clone(), cfg, prefix: prefix.clone(), faulty: faulty.clone(), rpc_index: None, src_index: None, k: 0, mined: Mined::Nothing, again: None, cut: false };
+        let probe = OutageCase { name: name.clone(), cfg, prefix: prefix.clone(), faulty: faulty.clone(), rpc_index: None, src_index: None, k: 0, mined: Mined::Nothing, again: None, cut: false, warmup: false };
         let mut w = World::new(cfg);
         w.boot().unwrap();
         for ev in prefix.iter() {
@@ -606,6 +610,14 @@ pub fn c12(tier: Tier) -> i32 {
                 c.rpc_index = Some(r);
                 c.k = *k;
                 c.cut = true;
+                cases.push(c);
+            }
+            // the node has been restarted since the last call and is warming up (error -28) for that long
+            for k in ks.iter() {
+                let mut c = probe.clone();
+                c.rpc_index = Some(r);
+                c.k = *k;
+                c.warmup = true;
                 cases.push(c);
             }
             for k in ks.iter() {
@@ -673,7 +685,7 @@ pub fn c12(tier: Tier) -> i32 {
                 run.violation(&sig, detail, json!({"engine": "outage", "case": c, "choices": choices, "early_timeouts": early}), c.prefix.len() * 10 + c.k as usize);
             }
             if done % 37 == 1 {
-                run.sample(json!({"case": c.name, "faulty": format!("{:?}", c.faulty), "outage_at_rpc": c.rpc_index, "second_outage_at_successful_rpc": c.again, "failed_source_call": c.src_index, "reply_cut_in_the_middle": c.cut, "polls_during_outage": c.k, "mined_meanwhile": format!("{:?}", c.mined)}));
+                run.sample(json!({"case": c.name, "faulty": format!("{:?}", c.faulty), "outage_at_rpc": c.rpc_index, "second_outage_at_successful_rpc": c.again, "failed_source_call": c.src_index, "reply_cut_in_the_middle": c.cut, "node_warming_up_instead_of_away": c.warmup, "polls_during_outage": c.k, "mined_meanwhile": format!("{:?}", c.mined)}));
             }
         }
     }
